@@ -63,8 +63,15 @@ def judge(cases, impl):
     return res
 
 
+INCONCLUSIVE_LIMIT = 0.02
+
+
 def inconclusive(i):
     return isinstance(i, dict) and i.get("timing")
+
+
+def case_inconclusive(c, i):
+    return inconclusive(i) or (c["fam"] == "c10store" and isinstance(i, list) and any(inconclusive(x) for x in i))
 
 
 def differs(i, m):
@@ -140,9 +147,14 @@ def describe_case(c):
     if c["fam"] == "c10mech":
         o = c.get("ovr")
         return (f"{c['mech']} (cache_ttl={c['ttl']}" + (f", rule override={o}" if o is not None else "")
+                + (f", validity_leeway={c['vl']}s" if c.get("vl") is not None else "")
+                + (f", claims template sets {c['tpl']}" if c.get("tpl") else "")
                 + (f", instances={c['insts']}" if c.get("insts") else "") + f", store={c['store']})")
     if c["fam"] == "c10http":
-        return f"http cache (default_ttl={c['dttl']}s, {c['method']}, store={c['store']})"
+        what = "oauth2 metadata endpoint" if c.get("via") == "metadata" else f"http cache ({c.get('method', 'GET')})"
+        conf = f"http_cache={c['hc']}" if "hc" in c else (
+            "http_cache not configured" if c.get("via") == "metadata" else f"default_ttl={c.get('dttl')}s")
+        return f"{what} ({conf}, store={c['store']})"
     return f"{c['kind']} cache"
 
 
@@ -207,6 +219,11 @@ def evidence(R, corpus, cases, impl, model, timing):
     outcomes = collections.Counter()
     rem = collections.Counter()
     life = collections.Counter()
+    reqkinds = collections.Counter()
+    settings = collections.Counter()
+    tpl = collections.Counter(c.get("tpl", "none") for c in cases if c.get("mech") == "jwtfin")
+    vls = collections.Counter(("negative" if v < 0 else "positive") for c in cases if c["fam"] == "c10mech"
+                              for v in [c.get("vl")] + [i.get("vl") for i in c.get("insts", [])] if v is not None)
     chains = collections.Counter()
     cfgc = collections.Counter()
     nontriv = set()
@@ -223,6 +240,9 @@ def evidence(R, corpus, cases, impl, model, timing):
                 outcomes[a] += b
             rem.update(st.get("rem", []))
             life.update(st.get("lifetime", []))
+            reqkinds.update(st.get("requests", []))
+            if "settings" in st:
+                settings[("metadata:" if c.get("via") == "metadata" else "endpoint:") + st["settings"]] += 1
             chains.update(st.get("chains", []))
         if "steps" in c:
             requests += len(c["steps"])
@@ -252,28 +272,35 @@ def evidence(R, corpus, cases, impl, model, timing):
         "cases_per_family": dict(per_fam), "cases_per_mechanism": dict(per_mech), "cases_per_store": dict(per_store),
         "model_outcomes": dict(outcomes), "remaining_lifetime_classes": dict(rem),
         "http_freshness_lifetime_classes": dict(life), "configured_ttl_classes": dict(cfgc),
-        "jwk_x5c_chain_classes": dict(chains),
+        "jwk_x5c_chain_classes": dict(chains), "http_request_kinds": dict(reqkinds),
+        "http_cache_settings": dict(settings), "jwt_finalizer_claims_template": dict(tpl),
+        "validity_leeway_settings": dict(vls),
         "corpus_cases": len(corpus), "inconclusive_timing": sum(timing.values()),
         "inconclusive_timing_by_family": dict(timing),
         "samples": samples, "exhaustive": False,
     })
     R.assumptions += [
-        "time is simulated: the mechanisms relate time.Now() only to expiry values handed out by the remote party, "
-        "so a later request is modelled as a request now against a cache whose clock was advanced (virtual cache with "
-        "the semantics of the in-memory cache, miniredis FastForward for Redis) and a remote party answering relative "
-        "to now; the real in-memory cache is driven on the wall clock in scenarios without time steps and in tick-"
-        "aligned store sessions (re-run when an operation misses its tick)",
+        "time is simulated: the mechanisms relate time.Now() to expiry values handed out by the remote party, so a "
+        "later request is modelled as a request now against a cache whose clock was advanced (virtual cache with the "
+        "semantics of the in-memory cache, miniredis FastForward for Redis) and a remote party answering relative to "
+        "now; documents sitting in the virtual cache are aged with the simulated time (exp/iat/nbf moved into the "
+        "past), so the re-validation the introspection authenticator performs on a cache hit sees a token as old as "
+        "it would be - this aging is not done for the Redis store; the real in-memory cache is driven on the wall "
+        "clock in scenarios without time steps and in tick-aligned store sessions only (timed histories never run "
+        "against it)",
         "which requests share a cache entry (cache keys) is the subject of C11: the harness maps the key chosen by "
         "the code to the logical entry of the scenario step",
         "whole-second granularity: TTLs handed to the cache are compared rounded up to seconds; requests happen "
         "strictly inside a second (same-second guard re-runs a case otherwise)",
-        "age of an HTTP response is counted from its receipt (Age header and the Date of a max-age response are not "
-        "taken into account by the library in use, nor by the model); heuristic freshness from Last-Modified and the "
-        "no-cache directive are not generated",
+        "HTTP: the response delay of RFC 7234 4.2.3 is taken as zero; heuristic freshness is never used (a response "
+        "without explicit expiration time gets default_ttl only); request Cache-Control directives other than "
+        "no-store are not generated",
+        "validity_leeway >= 0 (a negative value is refused by the configuration of the two caching authenticators; "
+        "hypothesis of the theorems)",
         "rueidis client-side caching is disabled in the Redis cases (as in heimdall's own tests); miniredis stands in "
         "for Redis",
-        "the leeway and default-TTL constants are read from the source by a regex extractor (extract/validity/"
-        "extract.py, fails closed) into Gen/CacheConsts.lean; the theorems only need their signs, which the kernel "
+        "the leeway and default-TTL constants are read from the source by the go/ast extractor (extract/validity, "
+        "fails closed) into Gen/CacheConsts.lean; the theorems only need their signs, which the kernel "
         "re-checks on every run",
         "pquerna/cachecontrol, ttlcache, rueidis, go-jose, x509 are exercised as they are, their part of the behaviour "
         "is validated by the correspondence only",
@@ -284,7 +311,7 @@ def report(R, exe, cases, impl, model, lean_ok):
     timing = collections.Counter()
     bad = []
     for n, (c, i, m) in enumerate(zip(cases, impl, model)):
-        if inconclusive(i) or (c["fam"] == "c10store" and isinstance(i, list) and any(inconclusive(x) for x in i)):
+        if case_inconclusive(c, i):
             timing[c["fam"] + "/" + c.get("store", c.get("kind", ""))] += 1
             continue
         if differs(i, m):
@@ -354,14 +381,24 @@ def report(R, exe, cases, impl, model, lean_ok):
     return timing
 
 
+def rerun_inconclusive(R, exe, cases, impl):
+    """cases that could not be placed inside their second / tick are tried once more, one after another"""
+    idx = [n for n, (c, i) in enumerate(zip(cases, impl)) if case_inconclusive(c, i)]
+    if not idx:
+        return 0
+    again = run_impl(R, exe, [cases[n] for n in idx])
+    for n, i in zip(idx, again):
+        impl[n] = i
+    return len(idx)
+
+
 def run(R):
     gen_err = regenerate(R)
     if gen_err:
+        # a stub with the constants of the last successful extraction is in place: everything still builds, only
+        # c10_constants_read_from_source fails; the correspondence run goes on with those constants
         R.violation("the cache constants can no longer be read from the source (extractor fails closed): " + gen_err,
-                    {"extractor": "extract/validity/extract.py", "error": gen_err}, no_input=True)
-        R.coverage.update({"obligations": 1, "discharged": 0, "checker_cmd": "extract/validity/extract.py",
-                           "trusted_base": []})
-        return
+                    {"extractor": "extract/validity (go/ast)", "error": gen_err}, no_input=True)
     lean_ok = vlib.step_lean(R, PID)
     exe = vlib.step_harness(R)
     if exe is None:
@@ -374,9 +411,19 @@ def run(R):
     corpus = vlib.load_corpus(PID)
     cases = corpus + build_cases(R)
     impl = run_impl(R, exe, cases)
+    retried = rerun_inconclusive(R, exe, cases, impl)
     model = run_model(cases)
-    timing = report(R, exe, cases, impl, model, lean_ok)
+    timing = report(R, exe, cases, impl, model, lean_ok or bool(gen_err))
     evidence(R, corpus, cases, impl, model, timing)
+    R.coverage["inconclusive_retried"] = retried
+    # coverage must not silently evaporate on a loaded machine
+    per_class = collections.Counter(c["fam"] + "/" + c.get("store", c.get("kind", "")) for c in cases)
+    starved = {k: f"{v} of {per_class[k]}" for k, v in timing.items()
+               if per_class[k] >= 20 and v > INCONCLUSIVE_LIMIT * per_class[k] or per_class[k] < 20 and v == per_class[k]}
+    if starved:
+        R.violation("too many cases could not be placed inside their second / tick even when re-run one by one "
+                    f"(limit {int(INCONCLUSIVE_LIMIT * 100)} % per family and store): {starved}; the run says nothing "
+                    "about these classes", {"inconclusive": starved}, no_input=True)
 
 
 def replay(R, path):
